@@ -59,6 +59,8 @@ def _query(ctx, g, m):
         for i in m.iter_imports():
             i.get_defined_names()
         m.get_first_leaf(), m.get_last_leaf(), m.get_leaf_for_position((1, 0))
+        from ..oracles import readonly
+        ctx.count('read_only_calls', readonly.exercise(m, max_nodes=1500))
         ctx.count('trees_queried')
     except RecursionError:
         ctx.count('recursion_error_skipped')
